@@ -70,6 +70,12 @@ PROPS = {
     "C18": dict(module="C18", suites=["load"], technique=_T, design_ref="DESIGN.md §8 C18",
                 note="Same modelling scope as C17. LOAD suite applies every single-rule mutation of the catalogue (37 rules, several variants each) to every base document (shipped + random) plus a malformed stream: both sides must reject; an exception of any type counts as rejection.",
                 text="26 theorems C18_*: for every document, breaking a catalogue rule (missing/unknown/mistyped section, empty or non-positive subnets, wrong-shape or non-0/1 topology, empty/duplicated name lists, invalid/duplicate/non-positive sensitive hosts, defective exploits/escalations, negative scan cost, missing/superfluous/defective host configurations incl. malformed host firewall and contradicting sensitive value, missing/non-list/duplicated/unknown-service firewall rules, non-positive step limit) makes load return an error."),
+    "C19": dict(module="C19", suites=["multi"], technique=_T, design_ref="DESIGN.md §8 C19",
+                note="Partial: the property is FALSE of the implementation for environments with different vector layouts (known finding, known_findings.json key C19:different-layouts: HostVector keeps its layout in class attributes). Proved: with one shared layout every interleaving behaves like independent environments (World model with a process-wide layout vs a list of solo environments); the different-layout failure is exhibited on the model by kernel evaluation. The MULTI suite decides the runtime part on the implementation: random interleavings of construct/reset/step/generate_initial_state/decoding on two live environments compared, operation by operation, with the same operations applied to each environment alone.",
+                text="C19_same_layout / C19_state_decodes (refinement of the class-level-layout world to independent environments, any interleaving, any length) and C19_counterexample (decide +kernel); equal-layout pairs must match their solo runs exactly, different-layout interference is reported as KNOWN-FINDING."),
+    "C20": dict(module="C20", suites=["bound"], technique=_T, design_ref="DESIGN.md §8 C20",
+                note="Partial: the property is FALSE of the implementation (two known findings: hop count overestimates on branching topologies, negative discovery values; keys C20:hops-exceed-minimal-subnet-set, C20:negative-discovery-value), shown on the model by kernel-evaluated counterexamples. Proved for all inputs: the value gained by a step is exactly the increase of the potential (host values of ROOT-held hosts + discovery values of discovered hosts) and hence the total reward of any history is potential gained minus costs paid. 'hops <= smallest set of subnets that must be entered' is evaluated per scenario (brute force in the driver), and on small scenarios of the property's domain the exact optimum over goal-reaching episodes is computed on the real environment by DP over the monotone state graph and compared with the advertised bound.",
+                text="C20_value_is_potential_difference, C20_history_accounting, C20_total_le (all histories, any length); C20_star_counterexample, C20_negative_discovery_counterexample (decide +kernel); model of Floyd-Warshall + permutation hop count tied to get_minimum_hops/get_score_upper_bound."),
 }
 
 
